@@ -271,7 +271,9 @@ def run(repo: Repo, chk: Check) -> None:
                f'{n} words: the words looked up in the word list are cut from the NFKD-normalised sentence', vm.loc, {'looked_up': looked[:4]},
                what=f'{n}-word mnemonics: the words searched in the BIP-39 word list ({looked[:2]}) do not come from the NFKD-normalised sentence: a valid '
                     'mnemonic typed in composed form (French, Spanish, Japanese) is rejected')
-        ok = unhex == {(ent // 4, ent // 4)} and sha_in == {(ent // 8, ent // 8)} and cmp_ == {((cs, cs), (cs, cs))} and outs == ['raise', 'return']
+        overflow = [e for e in evs if e[0] == 'to_bytes-may-overflow']
+        # (the hex-digit count only exists when the entropy goes through a hexadecimal text; then it must be exact as well)
+        ok = unhex <= {(ent // 4, ent // 4)} and sha_in == {(ent // 8, ent // 8)} and cmp_ == {((cs, cs), (cs, cs))} and outs == ['raise', 'return'] and not overflow
         chk.ob('R-GUARD', vm.qualname, ok, f'{n} words: the entropy is always {ent // 8} bytes and {cs} checksum bits are compared with {cs} bits of its SHA-256', vm.loc,
                {'hex_digits_of_entropy': sorted(unhex), 'sha256_input_bytes': sorted(sha_in), 'compared_lengths': sorted(cmp_), 'outcomes': outs},
                what=f'{n}-word mnemonics: the entropy handed to SHA-256 has {sorted(unhex)} hex digits (must be exactly {ent // 4}: leading zero nibbles are part of it) '
@@ -327,6 +329,8 @@ class MnemonicHooks(Hooks):
         return NotImplemented
 
     def subscript(self, it, obj, idx, node):
+        if isinstance(obj, SL) and isinstance(idx, int) and 'digest' in obj.what and -obj.lo <= idx < obj.lo:
+            return IB(0, 255)  # one byte of the digest
         if isinstance(obj, SL) and isinstance(idx, slice) and all(x is None or isinstance(x, int) for x in (idx.start, idx.stop)) and idx.step is None:
             def cut(n: int) -> int:
                 return len(range(*idx.indices(n)))
@@ -361,6 +365,13 @@ class MnemonicHooks(Hooks):
                 return IB(0, 2047)  # position in the 2048-word list
             if name == 'hexdigest':
                 return SL(64, 64, 'sha256 hex')
+            if name == 'digest':
+                return SL(32, 32, 'sha256 digest')
+            if name == 'to_bytes' and isinstance(recv, IB) and args and isinstance(args[0], int):
+                # exactly n bytes, whatever the value (leading zero bytes included); a value that does not fit raises OverflowError
+                if recv.hi >= 256 ** args[0]:
+                    it.event('to_bytes-may-overflow', recv.hi.bit_length(), args[0])
+                return SL(args[0], args[0], 'entropy bytes')
             if name == 'join' and isinstance(args[0], (list, tuple)) and all(isinstance(x, SL) for x in args[0]):
                 return SL(sum(x.lo for x in args[0]), sum(x.hi for x in args[0]), 'bits')
         if isinstance(callee, Builtin):
@@ -394,6 +405,37 @@ class MnemonicHooks(Hooks):
         if isinstance(a, SL) and isinstance(b, SL) and op in ('==', '!='):
             it.event('compare', (a.lo, a.hi), (b.lo, b.hi))
             return App('texts-differ' if op == '!=' else 'texts-equal', a, b)
+        if isinstance(a, IB) and isinstance(b, IB) and op in ('==', '!=') and a.lo == 0 and b.lo == 0:
+            # two bit fields compared as integers: their widths are what the text implementation compares as string lengths
+            wa, wb = a.hi.bit_length(), b.hi.bit_length()
+            it.event('compare', (wa, wa), (wb, wb))
+            return App('ints-differ' if op == '!=' else 'ints-equal', a, b)
+        return NotImplemented
+
+    def binop(self, it, op, a, b, node):
+        # interval arithmetic on non-negative integers (the checksum test written with shifts and masks instead of bit strings)
+        if not (isinstance(a, IB) or isinstance(b, IB)):
+            return NotImplemented
+        ia = a if isinstance(a, IB) else IB(a, a) if isinstance(a, int) and not isinstance(a, bool) else None
+        ib = b if isinstance(b, IB) else IB(b, b) if isinstance(b, int) and not isinstance(b, bool) else None
+        if ia is None or ib is None or ia.lo < 0 or ib.lo < 0:
+            return NotImplemented
+        if op == 'LShift' and ib.lo == ib.hi:
+            return IB(ia.lo << ib.lo, ia.hi << ib.lo)
+        if op == 'RShift' and ib.lo == ib.hi:
+            return IB(ia.lo >> ib.lo, ia.hi >> ib.lo)
+        if op == 'BitOr':
+            return IB(max(ia.lo, ib.lo), (1 << max(ia.hi.bit_length(), ib.hi.bit_length())) - 1)
+        if op == 'BitAnd':
+            return IB(0, min(ia.hi, ib.hi))
+        if op == 'Add':
+            return IB(ia.lo + ib.lo, ia.hi + ib.hi)
+        if op == 'Mult':
+            return IB(ia.lo * ib.lo, ia.hi * ib.hi)
+        if op == 'FloorDiv' and ib.lo == ib.hi and ib.lo > 0:
+            return IB(ia.lo // ib.lo, ia.hi // ib.lo)
+        if op == 'Mod' and ib.lo == ib.hi and ib.lo > 0:
+            return IB(0, min(ia.hi, ib.lo - 1))
         return NotImplemented
 
 
